@@ -2,9 +2,9 @@
 E-CAB coarse: every public operation is run on the representative of every path class under a generous
 wall-time budget (20 s for networks of <= 4 variables; ordinary classes take milliseconds).  A representative
 that exceeds the budget is replayed on the clean code with a 60 s time-out and reported if it hangs again.
-Inside the opaque attractor region (symbolic_attractor_test) the path is not class-constant, so for that
-region the statement is per representative; the fine-mode harness (checks/C13 'fine' tasks) decides the
-reachability loop's control structure for the whole class."""
+Inside the opaque attractor region (symbolic_attractor_test) the path is not class-constant, so in coarse tasks the
+statement is per representative there; the tasks tagged 'fine' run the region on vertex-set handles with a symbolic
+denotation (engine/fine.py), which makes the loop's path class-constant and the statement class-level."""
 from __future__ import annotations
 import itertools
 from engine import specs, ops
@@ -57,8 +57,14 @@ def tasks(tier, seed, selftest=False):
         S.append(dict(family="D3", skeleton=(o,), timebox=10 if q else 600))
     for p in PREFIX:
         for qy in QUERY:
-            S.append(dict(family="U2", skeleton=tuple(p) + (qy,), timebox=15 if q else 600))
-            S.append(dict(family="D3", skeleton=tuple(p) + (qy,), timebox=15 if q else 900))
+            S.append(dict(family="U2", skeleton=tuple(p) + (qy,), timebox=10 if q else 600))
+            S.append(dict(family="D3", skeleton=tuple(p) + (qy,), timebox=12 if q else 900))
+    # fine mode: inside symbolic_attractor_test the path is class-constant, so "returned within the budget" holds
+    # for every network of the class
+    for p in ((), ("succ",), ("fullbfs",)):
+        for qy in ("seeds", "sets"):
+            S.append(dict(family="U2", skeleton=tuple(p) + (qy,), timebox=10 if q else 600, tag="fine", params={"fine": True}))
+            S.append(dict(family="D3", skeleton=tuple(p) + (qy,), timebox=15 if q else 900, tag="fine", params={"fine": True}))
     if not q:
         for qy in ("seeds", "sets"):
             S.append(dict(family="U3", skeleton=(qy,), timebox=600, cube_k=5, nbits=24))
